@@ -92,6 +92,25 @@ def _echo_keys(spec):
     return dict(spec, children=kids)
 
 
+UNDERSCORED = {"maxsize": "max_size", "userid": "user_id", "k1": "k__1", "tls": "tls_", "db": "db_", "level": "log_level", "flag": "flag_", "net": "net__cfg"}
+
+
+def _underscore_keys(node):
+    """Identifier keys with underscores - inner, doubled and trailing (a leading one would be a private attribute)."""
+    kids = []
+    for c in node["children"]:
+        if c["kind"] in ("schema", "configtype", "schemalist"):
+            c = _underscore_keys(c)
+        new = UNDERSCORED.get(c["key"])
+        if new and new not in {x["key"] for x in node["children"]}:
+            for v in node["children"]:
+                if v["kind"] == "virtual" and v.get("of") == c["key"]:
+                    v["of"] = new
+            c = dict(c, key=new)
+        kids.append(c)
+    return dict(node, children=kids)
+
+
 def strategy(tier):
     depth = 3 if tier == "quick" else 4
 
@@ -126,7 +145,7 @@ def strategy(tier):
     kinds = ["str", "int", "float", "port", "bool", "bool", "host", "loglevel", "appmode", "secure", "list", "dict", "bytes", "any",
              "challenge", "ipv4", "ipv4net", "url", "filename"]
     return worlds.schema_spec(tier, kinds=kinds, depth=depth, width=4 if tier == "quick" else 6, min_width=2,
-                              allow=("schema", "schema", "schema", "configtype", "schemalist", "virtual", "method", "featureflag")).map(_echo_keys).flatmap(build)
+                              allow=("schema", "schema", "schema", "configtype", "schemalist", "virtual", "method", "featureflag")).map(_underscore_keys).map(_echo_keys).flatmap(build)
 
 
 def _option(path):
